@@ -199,6 +199,7 @@ type reqSpec struct {
 	only      string                         // "" = Bind; otherwise the single-source entry point BindQuery/BindHeader/BindForm/BindPath
 	emptyJSON bool                           // JSON media type, empty body
 	wire      bool                           // the request is parsed from its bytes by a server that keeps header names as sent; the client writes cookie: and content-type: in lower case
+	copied    bool                           // bound on a copy of the request (what RequestContext.Copy hands to a goroutine)
 	broken    int                            // >0: the streamed JSON body fails (the peer goes away) after broken-1 bytes / before its end
 	ctCase    int                            // spelling of the media type: 0 lower case, 1 mixed case, 2 upper-case type with a parameter
 	vals      map[string]map[string][]string // source -> key -> values
@@ -605,6 +606,7 @@ func genReqSpec(r *mon.Rand, fields []fieldSpec) reqSpec {
 		rs.ctCase = 1 + r.Intn(2)
 	}
 	rs.wire = r.Chance(4) && !rs.stream
+	rs.copied = r.Chance(4) && !rs.stream // (a copy does not include a body stream)
 	for _, f := range fields {
 		if _, ok := f.tags["header"]; ok {
 			// (with names kept as sent, which spelling a header tag matches is the application's business)
@@ -635,7 +637,7 @@ func throughWire(req *protocol.Request) *protocol.Request {
 }
 
 func (rs reqSpec) desc() string {
-	return fmt.Sprintf("%v multipart=%v stream-of-unknown-length=%v media-type-spelling=%d json-media-type-with-empty-body=%v stream-fails-after=%d parsed-from-wire-with-lower-case-names=%v entry-point=Bind%s", rs.vals, rs.multipart, rs.stream, rs.ctCase, rs.emptyJSON, rs.broken-1, rs.wire, rs.only)
+	return fmt.Sprintf("%v multipart=%v stream-of-unknown-length=%v media-type-spelling=%d json-media-type-with-empty-body=%v stream-fails-after=%d parsed-from-wire-with-lower-case-names=%v bound-on-a-copy=%v entry-point=Bind%s", rs.vals, rs.multipart, rs.stream, rs.ctCase, rs.emptyJSON, rs.broken-1, rs.wire, rs.copied, rs.only)
 }
 
 func typeOf(fields []fieldSpec) reflect.Type {
@@ -660,6 +662,11 @@ func bindOnce(b binding.Binder, t reflect.Type, fields []fieldSpec, rs reqSpec) 
 	req, ps := buildReq(rs, fields)
 	if rs.wire && rs.only == "" {
 		req = throughWire(req)
+	}
+	if rs.copied {
+		cp := &protocol.Request{}
+		req.CopyTo(cp)
+		req = cp
 	}
 	v := reflect.New(t)
 	var err error
